@@ -470,3 +470,29 @@ Proof.
   apply Forall_forall. intros l Hl. apply repeat_spec in Hl. subst l.
   unfold line_create. apply Forall_forall. intros c Hc. apply repeat_spec in Hc. now subst.
 Qed.
+
+(* without growing, the line vector never gets longer than the layer is high *)
+Lemma put_false_lines_bound L x y c :
+  (length (l_lines L) <= Z.to_nat (l_h L))%nat ->
+  l_h (put false L x y c) = l_h L /\ (length (l_lines (put false L x y c)) <= Z.to_nat (l_h L))%nat.
+Proof.
+  intro H. unfold put, layer_set_char. destruct (out_of_layer L x y) eqn:E; [split; [reflexivity|exact H]|].
+  cbn [l_h l_lines]. split; [reflexivity|]. rewrite length_lines_set.
+  unfold out_of_layer in E. apply orb_false_elim in E as [E Ey]. apply orb_false_elim in E as [E _]. apply orb_false_elim in E as [_ Ey0].
+  apply Z.ltb_ge in Ey0. destruct (Z.geb_spec y (l_h L)); [discriminate|]. lia.
+Qed.
+
+Lemma pair_loop_false_lines_bound dec w data : forall L x y,
+  (length (l_lines L) <= Z.to_nat (l_h L))%nat ->
+  (length (l_lines (pair_loop false dec w L x y data)) <= Z.to_nat (l_h L))%nat.
+Proof.
+  assert (Hind : forall n data, (length data <= n)%nat -> forall L x y,
+             (length (l_lines L) <= Z.to_nat (l_h L))%nat ->
+             (length (l_lines (pair_loop false dec w L x y data)) <= Z.to_nat (l_h L))%nat).
+  { induction n as [|n IH]; intros d Hn L x y H.
+    - destruct d; [exact H|cbn in Hn; lia].
+    - destruct d as [|ch [|a rest]]; try exact H. cbn [pair_loop]. cbn [length] in Hn.
+      destruct (put_false_lines_bound L x y (dec ch a) H) as (Hh & Hl).
+      destruct (x + 1 >=? w); rewrite <- Hh; apply IH; try lia; rewrite Hh; exact Hl. }
+  intros L x y. apply (Hind (length data)). lia.
+Qed.
